@@ -64,7 +64,7 @@ func VerifNewScanner(dir string, ss *VerifSharded) *VerifScanner {
 	return &VerifScanner{
 		dw: &DirectoryWatcher{
 			dir:        dir,
-			timestamps: map[string]time.Time{},
+			timestamps: map[string]shardStamp{},
 			loader:     rec,
 			ready:      make(chan struct{}),
 			quit:       make(chan struct{}),
@@ -87,11 +87,18 @@ func (s *VerifScanner) Scan() (calls []VerifLoaderCall, err error, panicked stri
 	return nil, err, ""
 }
 
+// VerifStamp is one entry of the watcher's table: mtime of the shard and of its sidecar (HasMeta false = none).
+type VerifStamp struct {
+	Shard   time.Time
+	Meta    time.Time
+	HasMeta bool
+}
+
 // Timestamps returns a copy of the watcher's timestamp table.
-func (s *VerifScanner) Timestamps() map[string]time.Time {
-	m := make(map[string]time.Time, len(s.dw.timestamps))
+func (s *VerifScanner) Timestamps() map[string]VerifStamp {
+	m := make(map[string]VerifStamp, len(s.dw.timestamps))
 	for k, v := range s.dw.timestamps {
-		m[k] = v
+		m[k] = VerifStamp{Shard: v.shard, Meta: v.meta, HasMeta: !v.meta.IsZero()}
 	}
 	return m
 }
